@@ -527,6 +527,17 @@ fn replace_names(input: &str) -> Option<(String, HashMap<String, String>)> {
 
     for (kind, c) in CharClasses::new(input.chars()) {
         if kind != FullCodeCharKind::Normal {
+            if dollar_count > 0 {
+                if cur_name.is_empty() {
+                    // `$` followed by something that is not plain code, e.g. the raw
+                    // identifier in `$r#fn`: give up rather than misplace the `$`.
+                    return None;
+                }
+                // The name is terminated by a string or a comment.
+                register_metavariable(&mut substs, &mut result, &cur_name, dollar_count);
+                dollar_count = 0;
+                cur_name.clear();
+            }
             result.push(c);
         } else if c == '$' {
             dollar_count += 1;
